@@ -130,3 +130,48 @@ def initial_programs():
             pro = "let a = int(0);\n"
             progs.append(Prog("init/%d/%s" % (i, variant), pro + "let x = %s;\nformat!(\"{:?}\", x)" % r, pro + "let x = %s;\nformat!(\"{:?}\", x)" % d, [[2], [3], [-4]], "Full", meta={"macro": "join", "dsl": d, "ref": r}))
     return progs
+
+
+# the same operator with a block operand in two (and three) branches, distinct constants: the operands must not be confused
+TWINS = [
+    ("opt({i})", "|>", "{{ |v: i32| v + {c} }}", ".map({{ |v: i32| v + {c} }})"),
+    ("opt({i})", "=>", "{{ |v: i32| Some(v + {c}) }}", ".and_then({{ |v: i32| Some(v + {c}) }})"),
+    ("opt({i})", "?>", "{{ |v: &i32| *v != {c} }}", ".filter({{ |v: &i32| *v != {c} }})"),
+    ("opt({i})", "<|", "{{ Some({c}) }}", ".or({{ Some({c}) }})"),
+    ("opt({i})", "<=", "{{ || Some({c}) }}", ".or_else({{ || Some({c}) }})"),
+    ("res({i})", "<|", "{{ Ok::<i32, i32>({c}) }}", ".or({{ Ok::<i32, i32>({c}) }})"),
+    ("res({i})", "<=", "{{ |e: i32| Err::<i32, i32>(e + {c}) }}", ".or_else({{ |e: i32| Err::<i32, i32>(e + {c}) }})"),
+    ("res({i})", "!>", "{{ |e: i32| e + {c} }}", ".map_err({{ |e: i32| e + {c} }})"),
+    ("res({i})", "|>", "{{ |v: i32| v + {c} }}", ".map({{ |v: i32| v + {c} }})"),
+    ("vc({i}).into_iter()", "?|>", "{{ |v: i32| Some(v + {c}) }} =>[] Vec<i32>", ".filter_map({{ |v: i32| Some(v + {c}) }}).collect::<Vec<i32>>()"),
+    ("vc({i}).into_iter()", "?@", "{{ |v: &i32| *v + {c} > 101 }}", ".find({{ |v: &i32| *v + {c} > 101 }})"),
+    ("vc({i}).into_iter()", "?|>@", "{{ |v: i32| if v > 1 {{ Some(v + {c}) }} else {{ None }} }}", ".find_map({{ |v: i32| if v > 1 {{ Some(v + {c}) }} else {{ None }} }})"),
+    ("vc({i}).into_iter()", "^@", "{{ {c} }}, {{ |a: i32, v: i32| a + v + {c} }}", ".fold({{ {c} }}, {{ |a: i32, v: i32| a + v + {c} }})"),
+    ("vc({i}).into_iter()", ">@>", "{{ vec![{c}] }} =>[] Vec<i32>", ".chain({{ vec![{c}] }}).collect::<Vec<i32>>()"),
+    ("vc({i}).into_iter()", ">^>", "{{ vec![{c}, {c}] }} =>[] Vec<(i32, i32)>", ".zip({{ vec![{c}, {c}] }}).collect::<Vec<(i32, i32)>>()"),
+    ("int({i})", "->", "{{ |v: i32| v + {c} }}", None),
+]
+
+
+def twin_programs():
+    progs = []
+    consts = [100, 2000, 30000]
+    for t, (init, op, operand, ref) in enumerate(TWINS):
+        for n in (2, 3):
+            for deferred in (False, True):
+                brs, refs = [], []
+                for i in range(n):
+                    c = consts[i]
+                    ini = init.format(i=i)
+                    d = "%s %s%s %s" % (ini, "~" if deferred else "", op, operand.format(c=c))
+                    if ref is None:
+                        r = "(%s)(%s)" % (operand.split(" =>[]")[0].format(c=c), ini)
+                    else:
+                        r = "(%s)%s" % (ini, ref.format(c=c))
+                    brs.append(d)
+                    refs.append(r)
+                d = "join! { %s }" % ", ".join(brs)
+                r = "(%s)" % ", ".join(refs)
+                rows = [[2, 3, 1], [0, -5, 2], [1, 2, 3]]
+                progs.append(Prog("twin/%d/%d/%d" % (t, n, deferred), "let x = %s;\nformat!(\"{:?}\", x)" % r, "let x = %s;\nformat!(\"{:?}\", x)" % d, rows, "Full", meta={"macro": "join", "dsl": d, "ref": r}))
+    return progs
